@@ -162,6 +162,13 @@ Theorem C20_each_object_put_at_most_once :
 Proof. split; [apply forallb_Forall; vm_compute; reflexivity|split; [reflexivity|apply forallb_Forall; vm_compute; reflexivity]]. Qed.
 Print Assumptions C20_each_object_put_at_most_once.
 
+(* ---- no function hands its caller a value read out of an object it has just returned to the pool
+        (v.B, v.Bytes(), v[i:j] ... with Put(v) on the same path, deferred Puts included): the pool may give
+        the object to another goroutine at once, whose writes would then show through the returned value ---- *)
+Theorem C20_no_released_object_returned : c20_put_and_returned = [].
+Proof. reflexivity. Qed.
+Print Assumptions C20_no_released_object_returned.
+
 (* non-vacuity: the table is not empty and covers all six structs *)
 Example C20_table_nonempty :
   Nat.leb 37 (length c20_fields) = true /\ Nat.leb 7 (length c20_pool_sites) = true
